@@ -52,7 +52,17 @@ func excludedTE(curve, op string, scalars []string) string {
 	return ""
 }
 
+// std/signature/ecdsa Verify compares the bits of x(R) (reduced mod p) with the bits of r without reducing x(R)
+// mod n: a natively valid signature whose commitment has n <= x(R) < p (r = x(R) - n) is rejected.
+const SigECDSANoReduction = "ecdsa-xR-not-reduced-mod-n"
+
 func excludedECDSA(c *ECDSACase) string {
+	cv := curves[c.Curve]
+	if _, ok := open(SigECDSANoReduction); ok && cv != nil {
+		if want, _, X := ecdsaEquation(cv, c.Q.point(), unhx(c.R), unhx(c.S), unhx(c.M)); want && X.X.Cmp(cv.R) >= 0 {
+			return SigECDSANoReduction
+		}
+	}
 	return ""
 }
 
@@ -262,6 +272,10 @@ func probes() []probe {
 	p256 := curves["p256"]
 	sw(SigFakeGLVScalarOne, SWCase{Curve: "p256", Op: opMul, Points: []Pt{p256.derive("probe").pt()}, Scalars: []Sc{val(big.NewInt(3))}})
 	sw(SigFakeGLVScalarOne, SWCase{Curve: "p256", Op: opMul, Complete: true, Points: []Pt{p256.G.pt()}, Scalars: []Sc{val(big.NewInt(1))}})
+	// ECDSA: valid signature with x(R) = n + 2 (secp256k1)
+	ec := ECDSACase{Curve: "secp256k1", Q: Pt{X: "eaec0bb888d4b60c4348e430a73b6ba4a37448224973a3e9d8add7cedd047441", Y: "826ad2139cf05e113d7a22eca938d1c8196add3a0d6419cbd0ed467715d06d14"}, R: "2",
+		S: "821bd05eb8bd015babe8b09ee827326645049b0cd3201cb81c2e3f25cd343161", M: "7f0745955f4bd0c406fa1e3752ca0e373b3ec43f6d84eea68202a3116e2d61e6", Mut: "x(R)>=n"}
+	ps = append(ps, probe{SigECDSANoReduction, "ecdsa", ec, func() ev.Outcome { return runECDSA(ec) }})
 	// twisted Edwards ScalarMul with the half-GCD hint outputs all zero and the hinted result replaced
 	tea := TEAdvCase{Curve: "bn254", P: teCurves["bn254"].derive("probe").pt(), S: "1c0503b3050701ff00910002030318cba90c00911f445f07", Claim: "addB", Strategy: "zero-subscalars"}
 	ps = append(ps, probe{SigTEZeroSubscalars, "te-adv", tea, func() ev.Outcome { return runTEAdv(tea) }})
